@@ -211,7 +211,10 @@ func (c *FnCtx) oblige1(st *State, kind string, site ast.Node, sub, detail strin
 	if site != nil {
 		pos = site.Pos()
 	}
-	assume := append([]*Term(nil), st.pc...)
+	var assume []*Term
+	for _, a := range st.pc {
+		assume = append(assume, splitIffFact(a)...)
+	}
 	if g := st.guard(); !isLit(g, "true") {
 		assume = append(assume, g)
 	}
